@@ -209,6 +209,76 @@ theorem community_inside_window (w : Nat × Nat) (st : SState) (fh id : Nat) (h 
 example : createW (5, 10) [] .community 4 1 = none ∧ createW (5, 10) [] .community 10 1 = none ∧
     (createW (5, 10) [] .community 5 1).isSome ∧ (createW (5, 10) [] .community 9 1).isSome := by decide
 
+/-- lookups at or below the fork point are untouched by a rollback -/
+theorem histAt_rollback_le (hist : Hist) (h h' : Nat) (hle : h' ≤ h) :
+    histAt (rollbackHist hist h) h' = histAt hist h' := by
+  unfold histAt rollbackHist
+  induction hist with
+  | nil => rfl
+  | cons e t ih =>
+    by_cases hk : e.1 ≤ h
+    · rw [List.filter_cons_of_pos (by simpa using hk)]
+      by_cases he : e.1 = h'
+      · simp [he]
+      · simp only [List.find?_cons, he, decide_false]
+        exact ih
+    · rw [List.filter_cons_of_neg (by simpa using hk)]
+      have he : ¬ e.1 = h' := by omega
+      simp only [List.find?_cons, he, decide_false]
+      exact ih
+
+/-- nothing of the abandoned branch is left -/
+theorem histAt_rollback_gt (hist : Hist) (h h' : Nat) (hgt : h < h') :
+    histAt (rollbackHist hist h) h' = none := by
+  unfold histAt rollbackHist
+  induction hist with
+  | nil => rfl
+  | cons e t ih =>
+    by_cases hk : e.1 ≤ h
+    · rw [List.filter_cons_of_pos (by simpa using hk)]
+      have he : ¬ e.1 = h' := by omega
+      simp only [List.find?_cons, he, decide_false]
+      exact ih
+    · rw [List.filter_cons_of_neg (by simpa using hk)]
+      exact ih
+
+/-- T6 `rollback_follows_surviving_chain` (the step the driver takes on an `S-rollback` line): after a reorganisation
+    down to height `h` the contract state is the one of the momentum of height `h`; every answer for a store at or
+    below the fork point (state, hence `isActive` and the method tables) is what it was, and NOTHING recorded on the
+    abandoned branch above it survives — what holds at the heights above `h` is decided by the momentums that are
+    inserted afterwards, as on a node that only ever saw the surviving branch. -/
+theorem rollback_follows_surviving_chain (hist hist' : Hist) (st : SState) (h : Nat)
+    (hr : rollbackTo hist h = some (st, hist')) :
+    histAt hist' h = some st ∧ (∀ h', h' ≤ h → histAt hist' h' = histAt hist h') ∧
+    (∀ h' id, h' ≤ h → (histAt hist' h').map (isActive · h' id) = (histAt hist h').map (isActive · h' id)) ∧
+    (∀ h', h < h' → histAt hist' h' = none) := by
+  unfold rollbackTo at hr
+  split at hr
+  · rename_i st0 hs
+    cases hr
+    refine ⟨?_, ?_, ?_, ?_⟩
+    · rw [histAt_rollback_le hist h h (Nat.le_refl h)]; exact hs
+    · intro h' hle; exact histAt_rollback_le hist h h' hle
+    · intro h' id hle; rw [histAt_rollback_le hist h h' hle]
+    · intro h' hgt; exact histAt_rollback_gt hist h h' hgt
+  · cases hr
+
+/-- non-vacuity (the reorganisation across an enforcement height): branch A activates spork 42 against height 3
+    (enforced from 9) and reaches height 12; the node switches at height 2 to a branch on which nobody activates it:
+    at heights 9 and 12 of the surviving branch the spork is NOT active, although it was on the abandoned one; when the
+    surviving branch activates it later (against height 7) it is active from 13, not from 9 -/
+example :
+    let stC := (create [] .sporkKey 1 42).get!
+    let stA := (activate stC .sporkKey 3 42).get!
+    let histA : Hist := [(12, stA), (9, stA), (4, stA), (3, stC), (2, stC)]
+    let r := (rollbackTo histA 2).get!
+    let stB := (activate r.1 .sporkKey 7 42).get!
+    (histAt histA 9).map (isActive · 9 42) = some true ∧ r.1 = stC ∧ r.2 = [(2, stC)] ∧
+    histAt r.2 9 = none ∧ isActive r.1 9 42 = false ∧ isActive r.1 12 42 = false ∧
+    isActive stB 9 42 = false ∧ isActive stB 12 42 = false ∧ isActive stB 13 42 = true ∧
+    rollbackTo histA 7 = none := by
+  decide
+
 /-- T5 `halt_on_unknown`: the node reports unimplemented sporks (and its callers stop) exactly when some activated
     spork whose enforcement height has been reached is not among the implemented ones -/
 theorem halt_on_unknown (st : SState) (h : Nat) (impl : List Nat) :
